@@ -232,7 +232,81 @@ def explainer_case(task):
                 bad('explainer-error', f"Incremental{expl.upper()} (dynamic={dynamic}, alpha={alpha}, loss offset {offset:g}): "
                                        f"importance of {k!r} after {t + 1} observations is {g!r}, exact arithmetic on the same "
                                        f"inputs gives {float(vx[k])!r}; error {float(abs(F(g) - vx[k])):.3e} > {tol:.3e}")
+    if expl == 'pfi':
+        n_checked += pfi_independent(dynamic, alpha, offset, n_obs)
     return n_checked, {('explainer', expl, dynamic, alpha, offset)}
+
+
+def pfi_independent(dynamic, alpha, offset, n_obs):
+    """IncrementalPFI on float inputs against an INDEPENDENT exact reference (not the implementation itself): the
+    imputer spy gives the model inputs of every evaluation; predictions, losses, contributions and the running
+    statistic are recomputed in exact rational arithmetic from those float inputs."""
+    from ixai.explainer import IncrementalPFI
+    from ixai.storage import BatchStorage
+    from ixai.imputer import MarginalImputer
+    from ixverif.spies import EventLog, make_imputer_spy
+    from ixverif.refmodels import running
+    names = ['a', 'b', 'c']
+    off = float(offset)
+
+    def model_g(x, one):
+        return {'output': one * off + 2 * x['a'] - x['b'] * x['c'] + x['c'] / 8}
+
+    def loss_g(y, p, one):
+        d = y - p['output']
+        return d * d + one * off
+
+    log = EventLog()
+
+    def model(x):
+        if isinstance(x, dict):
+            log.add('model', dict(x), None)
+            return model_g(x, 1.0)
+        return [model(r) for r in x]
+    storage = BatchStorage(store_targets=False)
+    imp = make_imputer_spy(MarginalImputer(model, 'joint', storage), log)
+    ex = IncrementalPFI(model, lambda y, p: loss_g(y, p, 1.0), list(names), storage=storage, imputer=imp,
+                        n_inner_samples=2, dynamic_setting=dynamic, smoothing_alpha=float(alpha))
+    contribs = {n: [] for n in names}
+    checked = 0
+    maxl = [1.0]
+
+    def driver(run_):
+        nonlocal checked
+        for t in range(n_obs):
+            a = ((t * 7919) % 101) / 101.0
+            b = ((t * 104729) % 97) / 97.0 - 0.5
+            c = ((t * 31) % 7) / 7.0
+            x = {'a': a, 'b': b, 'c': c}
+            y = off + 2.0 * a - b
+            mark = log.mark()
+            vals = ex.explain_one(dict(x), y)
+            if t == 0:
+                continue
+            xe = {k: F(v) for k, v in x.items()}
+            base = loss_g(F(y), model_g(xe, 1), 1)
+            for ev in log.since(mark):
+                if ev[0] != 'impute':
+                    continue
+                feat = next(iter(ev[1]))
+                ls = [loss_g(F(y), model_g({k: F(v) for k, v in inp.items()}, 1), 1) for inp in ev[5]]
+                maxl[0] = max([maxl[0]] + [abs(float(v)) for v in ls])
+                contribs[feat].append(sum(ls) / len(ls) - base)
+            for n in names:
+                want = running(contribs[n], dynamic, F(float(alpha)))
+                got = float(vals[n])
+                tol = 64 * EPS * maxl[0] * (t + 1 if not dynamic else 1.0 / float(alpha))
+                checked += 1
+                if not math.isfinite(got) or abs(F(got) - want) > F(tol):
+                    bad('pfi-vs-independent-reference',
+                        f"IncrementalPFI (dynamic={dynamic}, alpha={alpha}, loss offset {offset:g}): importance of {n!r} after "
+                        f"{t + 1} observations is {got!r}; exact arithmetic on the same float inputs (independent closed-form "
+                        f"reference) gives {float(want)!r}; error {float(abs(F(got) - want)):.3e} > {tol:.3e}")
+        return None
+    run_, res, viol = choice.execute(driver, (), None, False)
+    if viol is not None:
+        raise viol
+    return checked
 
 
 def plan(tier):
